@@ -3,14 +3,17 @@ package dbp
 import (
 	"bytes"
 	"encoding/json"
+	"errors"
 	"fmt"
 	"os"
 	"path/filepath"
-	"strings"
 	"sort"
+	"strings"
 	"syscall"
 	"testing"
 
+	"github.com/tailscale/setec/audit"
+	"github.com/tailscale/setec/db"
 	"github.com/tink-crypto/tink-go/v2/aead"
 	"github.com/tink-crypto/tink-go/v2/insecurecleartextkeyset"
 	"github.com/tink-crypto/tink-go/v2/keyset"
@@ -96,6 +99,20 @@ type RestartCase struct {
 	RealKEK  bool     `json:"real_kek"`
 	FailSave []int    `json:"fail_save"` // indices of calls during which the database directory is renamed away, so a save fails
 	Retry    bool     `json:"retry"`     // the client repeats the identical call straight after such a failure
+	// indices of calls during which the audit device fails (the call is then expected to report an error;
+	// whatever it reports, only a call that reported success may have taken effect - now or after a
+	// restart). The server is restarted afterwards, because the audit writer does not recover.
+	FailAudit []int `json:"fail_audit,omitempty"`
+}
+
+// flakyAudit is an audit device that can be made to fail.
+type flakyAudit struct{ fail bool }
+
+func (f *flakyAudit) Write(p []byte) (int, error) {
+	if f.fail {
+		return 0, errors.New("injected: audit device unavailable")
+	}
+	return len(p), nil
 }
 
 // wouldSave reports whether the (allowed) call writes the file in state m.
@@ -163,7 +180,8 @@ func runC03(t *testing.T, rc RestartCase) (*h.Violation, h.Info) {
 		key, _ = newRealKEK()
 		info.Class("real-kek")
 	}
-	d, err := dbx.OpenDiscard(path, key)
+	sink := &flakyAudit{}
+	d, err := db.Open(path, key, audit.New(sink))
 	if err != nil {
 		return h.V("harness", "open: %v", err), info
 	}
@@ -179,6 +197,47 @@ func runC03(t *testing.T, rc RestartCase) (*h.Violation, h.Info) {
 		ver := tr.Resolve(op)
 		if s := tr.M[op.Name]; s != nil && op.Kind == "delver" && ver == s.Latest && ver != s.Active {
 			sawNewestDeleted = true
+		}
+		auditFails := false
+		for _, f := range rc.FailAudit {
+			if f == i {
+				auditFails = true
+			}
+		}
+		if auditFails {
+			sink.fail = true
+			shadow := tr.Clone()
+			want := shadow.Expect(su.Rules, op, ver)
+			got := tgt.Do(su, op, ver)
+			sink.fail = false
+			info.Class("audit-device-failed-during-a-call")
+			info.NonTrivial = true
+			if got.Class == model.OK {
+				// it reported success (whether it may is another property's business): then it happened
+				if diff := dbx.Compare(got, want); diff != "" {
+					return h.V("result-equals-model", "step %d %s with a failing audit device: %s", i, op, diff), info
+				}
+				tr = shadow
+			}
+			dump, err := dbx.Dump(d)
+			if err == nil {
+				if diff := dbx.DumpDiff(dump, tr.M); diff != "" {
+					return h.V("only-acknowledged-operations-take-effect", "step %d %s reported %s while the audit device was failing, but the running database now holds %s", i, op, got, diff), info
+				}
+			}
+			if v := checkRestart(dir, path, key, tr, i, op); v != nil {
+				if v.Clause == "reopen-equals-model" {
+					v.Detail = fmt.Sprintf("(the call reported %s while the audit device was failing) %s", got, v.Detail)
+				}
+				return v, info
+			}
+			// the audit writer stays broken after a failed write: restart the server
+			sink = &flakyAudit{}
+			if d, err = db.Open(path, key, audit.New(sink)); err != nil {
+				return h.V("reopen-succeeds", "restart after step %d: %v", i, err), info
+			}
+			tgt = dbx.DBTarget{D: d}
+			continue
 		}
 		failing := false
 		for _, f := range rc.FailSave {
@@ -241,13 +300,16 @@ func runC03(t *testing.T, rc RestartCase) (*h.Violation, h.Info) {
 
 var c03 = &h.Campaign[RestartCase]{
 	Prop: "C03", Sub: "restart",
-	Rule: "rapid: superuser histories as in C02 (1-25 calls), dummy or real AES-256-GCM KEK; after EVERY call: a second db.Open of the same path must leave file bytes/inode/size/mtime untouched and dump exactly the model state, an independent decoder of the documented schema-v1 layout must yield the model state including next-version counters, and on a copy a fresh put to each name must return model.latest+1; non-trivial = a reopen that follows a successful delete/delete-version, or a counter probe after the newest version was deleted; distinct by history",
+	Rule:  "rapid: superuser histories as in C02 (1-25 calls), dummy or real AES-256-GCM KEK; after EVERY call: a second db.Open of the same path must leave file bytes/inode/size/mtime untouched and dump exactly the model state, an independent decoder of the documented schema-v1 layout must yield the model state including next-version counters, and on a copy a fresh put to each name must return model.latest+1; non-trivial = a reopen that follows a successful delete/delete-version, or a counter probe after the newest version was deleted; distinct by history",
 	Quick: 4000, Thorough: 400000,
 	Gen: func(rt *rapid.T) RestartCase {
 		c := RestartCase{Ops: dbx.GenHistory(rt, 1, 25), RealKEK: rapid.IntRange(0, 3).Draw(rt, "realkek") == 0}
 		if rapid.IntRange(0, 2).Draw(rt, "withfail") == 0 {
 			c.FailSave = rapid.SliceOfN(rapid.IntRange(0, 24), 1, 3).Draw(rt, "failsave")
 			c.Retry = rapid.Bool().Draw(rt, "retry")
+		}
+		if rapid.IntRange(0, 3).Draw(rt, "withauditfail") == 0 {
+			c.FailAudit = rapid.SliceOfN(rapid.IntRange(0, 14), 1, 3).Draw(rt, "failaudit")
 		}
 		return c
 	},
@@ -291,10 +353,10 @@ func runC03Encoded(t *testing.T, ec EncodedCase) (*h.Violation, h.Info) {
 
 var c03enc = &h.Campaign[EncodedCase]{
 	Prop: "C03", Sub: "encoded",
-	Rule: "rapid: model states reached by random histories are rendered to a schema-v1 file by the harness's own encoder (harness/model/dbfile.go, written from the documented layout) under a fresh AES-256-GCM KEK; db.Open must read exactly that state (dump, counters, file untouched); non-trivial = non-empty state; distinct by history",
+	Rule:  "rapid: model states reached by random histories are rendered to a schema-v1 file by the harness's own encoder (harness/model/dbfile.go, written from the documented layout) under a fresh AES-256-GCM KEK; db.Open must read exactly that state (dump, counters, file untouched); non-trivial = non-empty state; distinct by history",
 	Quick: 1500, Thorough: 150000,
-	Gen:   func(rt *rapid.T) EncodedCase { return EncodedCase{Ops: dbx.GenHistory(rt, 0, 25)} },
-	Run:   runC03Encoded,
+	Gen: func(rt *rapid.T) EncodedCase { return EncodedCase{Ops: dbx.GenHistory(rt, 0, 25)} },
+	Run: runC03Encoded,
 }
 
 func init() { c03.Register(); c03enc.Register() }
